@@ -1,6 +1,7 @@
 package main
 
 import (
+	"time"
 	"context"
 	"crypto/ed25519"
 	"crypto/sha256"
@@ -168,6 +169,27 @@ func (e *NodeEnv) buildNode(st state.State, board storage.Storage) node.NodeServ
 	return n
 }
 
+// PollNode returns a node service bound to ctx (for running the real Poll loop).
+func (e *NodeEnv) PollNode(ctx context.Context) node.NodeService {
+	sp := services.ServiceProvider{}
+	sp.SetLogger(quietLogger{})
+	sp.SetState(e.St)
+	sp.SetStorage(e.Board)
+	sp.SetKeyStore(memKeyStore{e.KP})
+	sp.SetFSMService(fsmservice.NewFSMService(e.St, e.Board, topic))
+	or, err := oprepo.NewOperationRepo(e.St, topic)
+	if err != nil {
+		panic(err)
+	}
+	sp.SetOperationService(opservice.NewOperationService(or))
+	sp.SetSignatureService(sigservice.NewSignatureService(sigrepo.NewSignatureRepo(e.St)))
+	n, err := node.NewNode(ctx, &config.Config{Username: e.User}, &sp)
+	if err != nil {
+		panic(err)
+	}
+	return n
+}
+
 // Restart simulates a process restart on a crash image of the state directory.
 func (e *NodeEnv) Restart() {
 	e.nopen++
@@ -204,7 +226,22 @@ func stateDirName(k int) string {
 	return fmt.Sprintf("state-img-%d", k)
 }
 
+// copyDir takes a crash image of a (possibly live) LevelDB directory. A background compaction
+// may remove a table file between the listing and the read: the copy is then retried.
 func copyDir(src, dst string) {
+	for attempt := 0; ; attempt++ {
+		if tryCopyDir(src, dst) {
+			return
+		}
+		if attempt > 20 {
+			panic("copyDir: directory keeps changing: " + src)
+		}
+		os.RemoveAll(dst)
+		time.Sleep(5 * time.Millisecond)
+	}
+}
+
+func tryCopyDir(src, dst string) bool {
 	if err := os.MkdirAll(dst, 0755); err != nil {
 		panic(err)
 	}
@@ -218,12 +255,29 @@ func copyDir(src, dst string) {
 		}
 		bz, err := os.ReadFile(filepath.Join(src, en.Name()))
 		if err != nil {
+			if os.IsNotExist(err) {
+				return false
+			}
 			panic(err)
 		}
 		if err := os.WriteFile(filepath.Join(dst, en.Name()), bz, 0644); err != nil {
 			panic(err)
 		}
 	}
+	// the listing must still be valid (no file added or removed meanwhile)
+	ents2, err := os.ReadDir(src)
+	if err != nil {
+		panic(err)
+	}
+	if len(ents2) != len(ents) {
+		return false
+	}
+	for i := range ents {
+		if ents[i].Name() != ents2[i].Name() {
+			return false
+		}
+	}
+	return true
 }
 
 func (e *NodeEnv) Close() { os.RemoveAll(e.Dir) }
